@@ -90,12 +90,15 @@ func strDump(L *LState) int {
 func strFind(L *LState) int {
 	str := L.CheckString(1)
 	pattern := L.CheckString(2)
+	init := luaIndex2StringIndex(str, L.OptInt(3, 1), true)
+	if init > len(str) {
+		init = len(str)
+	}
 	if len(pattern) == 0 {
-		L.Push(LNumber(1))
-		L.Push(LNumber(0))
+		L.Push(LNumber(init + 1))
+		L.Push(LNumber(init))
 		return 2
 	}
-	init := luaIndex2StringIndex(str, L.OptInt(3, 1), true)
 	plain := false
 	if L.GetTop() == 4 {
 		plain = LVAsBool(L.Get(4))
@@ -361,6 +364,8 @@ func strMatch(L *LState) int {
 	offset--
 	if offset < 0 {
 		offset = 0
+	} else if offset > l {
+		offset = l
 	}
 
 	mds, err := pm.Find(pattern, unsafeFastStringToReadOnlyBytes(str), offset, 1)
